@@ -72,6 +72,31 @@ func bufSmall(b any) bool { return b != nil }
 // holdsFunc(x, "pkg.Func"): x is (an interface wrapping a function-typed value equal to) that function.
 func holdsFunc(x any, name string) bool { return x != nil }
 
+// Hash ghost (DESIGN.md s5.4): a hash.Hash has an abstract absorb state.
+// hInit(h) is the freshly keyed / reset state, hState(h) the current one,
+// hAbsorb* extend a state, hIsDigest(b, st) says b holds the leading bytes of
+// the digest of st, hSizeOf(h) is the number of bytes Sum appends.
+// hmacKeyed(ctor, key) is the initial state of an HMAC over the named hash
+// constructor keyed with the bytes of key; hmacKeyedDigest(ctor, st, n) the
+// same with the first n digest bytes of state st as the key.
+func hState(h any) int                                  { return 0 }
+func hInit(h any) int                                   { return 0 }
+func hSizeOf(h any) int                                 { return 0 }
+func hAbsorb(st int, b []byte) int                      { return st }
+func hAbsorbStr(st int, s string) int                   { return st }
+func hAbsorbByte(st int, b byte) int                    { return st }
+func hIsDigest(b []byte, st int) bool                   { return true }
+func hmacKeyed(ctor string, key []byte) int             { return 0 }
+func hmacKeyedDigest(ctor string, st int, n int) int    { return 0 }
+func hmacKeyedBy(ctor any, key []byte) int              { return 0 }
+func hashLenBy(ctor any) int                            { return 0 }
+func isPlainHash(h any) bool                            { return true }
+
+// unchanged(x): the addressable value x has, field by field, the value it had on entry.
+func unchanged[T any](x T) bool { return true }
+func aesKeyByte(block any, k int) byte                  { return 0 }
+func hDigestByte(st int, k int) byte                    { return 0 }
+
 // sends(): ghost counter of datagrams handed to transport.Send so far.
 func sends() int { return 0 }
 
@@ -92,6 +117,9 @@ func window(s []byte, t []byte, lo, hi int) bool { return aliases(s, t, lo, hi) 
 
 // isnew(x): the backing array of x was allocated by the function under contract.
 func isnew(x []byte) bool { return true }
+
+// isnewobj(p): p points to an object allocated during the call.
+func isnewobj[T any](p *T) bool { return p != nil }
 
 // samebase(x, y): x and y share their backing array and x starts where y starts.
 func samebase(x, y []byte) bool { return cap(x) == 0 || cap(y) == 0 || &x[:1][0] == &y[:1][0] }
